@@ -155,6 +155,21 @@ pub fn run(seed: u64, thorough: bool) {
         let _ = keygen_aux(shape.hash, &shape.levels, &sd2, &mut other);
         keygen_case(shape, &sd, &other, "other_seed", &base, kc, "");
         sign_case(shape, &blob, &msg, &other, "other_seed", &sbase, sc, "");
+        // buffers made for seeds that differ from this one in a single byte (every position) --
+        // the MAC key must depend on the whole seed
+        for pos in 0..n {
+            if !(thorough || pos < 2 || pos + 2 >= n || pos % 5 == 1) {
+                continue;
+            }
+            let mut sd3 = sd.clone();
+            sd3[pos] ^= 0x40;
+            let mut near = vec![0u8; 2000];
+            let _ = keygen_aux(shape.hash, &shape.levels, &sd3, &mut near);
+            keygen_case(shape, &sd, &near, "near_seed", &base, kc, "");
+            if pos % 10 == 1 {
+                sign_case(shape, &blob, &msg, &near, "near_seed", &sbase, sc, "");
+            }
+        }
         // a buffer made for the SAME seed but another shape of the top tree (MAC is keyed by the seed only)
         let alt_levels: Vec<(u32, u32)> = if shape.levels[0].1 == 1 { vec![(shape.levels[0].0, 5)] } else { vec![(shape.levels[0].0, 1)] };
         let mut alt = vec![0u8; 2000];
